@@ -26,8 +26,9 @@ namespace Mkdb.Engine
 open Mkdb.Store Mkdb.Tuple Mkdb.Sql
 
 /-- **C14.insert_first_row**: an INSERT whose first row is refused - unknown table, column-count
-mismatch, type mismatch, out-of-range integer, duplicate key - returns that error, leaves the log
-untouched and changes nothing in the store. -/
+mismatch, a column name the table does not have (`fieldNotFound`) or one column named twice
+(`fieldAmbiguous`), type mismatch, out-of-range integer, duplicate key - returns that error, leaves the
+log untouched and changes nothing in the store. -/
 theorem C14_insert_first_row (db : DB) (table : Bytes) (cols : List Bytes) (r : List Val)
     (rest : List (List Val)) (e : SErr) (s' : Store) (hf : Filed db.store)
     (h : insert table (cols.map bytesToName) r db.store = .err e s') (he : Refusal e) :
@@ -56,13 +57,13 @@ theorem C14_insert_kth_row (db : DB) (table : Bytes) (cols : List Bytes)
   evalInsert_kth_row_refused db table cols good bad rest logs sk s' e hf hgood hbad he
 
 /-- **C14.create_table**: CREATE TABLE refused because the table exists, a column length is out of
-range, or a catalog row would not fit a page cell (a long table or column name) changes nothing
-and logs nothing. -/
+range, a column name is used twice (`fieldAmbiguous`), or a catalog row would not fit a page cell (a
+long table or column name) changes nothing and logs nothing. -/
 theorem C14_create_table (db : DB) (name : Bytes) (cols : List Sql.ColDef)
     (flushOrder : List Nat) (doFlush : Bool) (e : SErr) (s' : Store) (hf : Filed db.store)
     (h : createTable (cols.map colTypeToField) name flushOrder doFlush db.store = .err e s')
     (he : e = .tableAlreadyExist ∨ e = .intOutOfRange ∨ e = .rowTooLarge ∨ e = .typeMismatch ∨
-          e = .colCountMismatch) :
+          e = .colCountMismatch ∨ e = .fieldAmbiguous) :
     ∃ db', evalCreateTable db name cols flushOrder doFlush = .err (.store e) db' ∧
       db'.wal = db.wal ∧ Filed db'.store ∧ SameData db.store db'.store :=
   evalCreateTable_refused db name cols flushOrder doFlush e s' hf h he
@@ -82,6 +83,23 @@ theorem C14_delete (db : DB) (table : Bytes) (where_ : Option Sql.Cond)
 end Mkdb.Engine
 
 namespace Mkdb.Store
+/-- **C14.insert_unknown_column** (the repaired defect, on ANY store): once the catalog lookups have
+delivered the columns `schema` of the table, an INSERT whose column list names something that is not a
+column of the table never succeeds: it returns `colCountMismatch` (wrong number of values, tested
+first) or `fieldNotFound` / `fieldAmbiguous` (what `checkColumns` says), in the store the lookups left,
+and - the cache being well filed - every page, every dirty bit, the data file and the header locations
+are as before.  (Before the repair the row went in with the value dropped.) -/
+theorem C14_insert_unknown_column (table : Bytes) (cols : List String) (vals : List Tuple.Val)
+    (s s1 s2 s3 : Store) (off : Nat) (n : Mkdb.Page.Node) (schema : List Tuple.FieldDef)
+    (h1 : relationOffset table s = .ok off s1) (h2 : fetch off s1 = .ok n s2)
+    (h3 : relationSchema table s2 = .ok schema s3)
+    (c : String) (hc : c ∈ colsOf schema cols) (hn : c ∉ schema.map (·.name)) :
+    ∃ e, insert table cols vals s = .err e s3 ∧
+      (e = .colCountMismatch ∨ e = .fieldNotFound ∨ e = .fieldAmbiguous) ∧
+      ((colsOf schema cols).length = vals.length → checkColumns schema (colsOf schema cols) = some e) ∧
+      (Filed s → Filed s3 ∧ SameData s s3) :=
+  insert_unknown_column table cols vals s s1 s2 s3 off n schema h1 h2 h3 c hc hn
+
 /-- **C14.create_table_long_column_witness** (non-vacuity, and the regression witness of a repaired
 defect): on an empty catalog, CREATE TABLE with a 400-byte name in its *second* column is refused
 and the store is exactly the one before it, with the page table pulled into the cache - no root
@@ -110,13 +128,15 @@ open Mkdb.Tree Mkdb.Page Mkdb.Tuple
 
 /-- **C14.insert_refused_plain_model**: against the plain in-memory model (the judge's specification):
 an INSERT into an unknown table, or whose *first* row the plain model refuses (arity, type, range,
-size), is refused by the plain model and by the engine, the log is untouched and the store still
-abstracts to the same plain database. -/
+size), or whose column list names a column the table does not have or one column twice, is refused by
+the plain model and by the engine, the log is untouched and the store still abstracts to the same
+plain database. -/
 theorem C14_insert_refused_plain_model (db : Engine.DB) (pt sch : Levels) (tbls : List (Bytes × Levels))
     (sdb : Spec.SDB) (h : AbsV db.store pt sch tbls sdb) (table : Bytes) (cols : List Bytes)
     (r : List Val) (rest : List (List Val))
     (hbad : (Spec.findTable sdb table = none ∧ table ≠ sysPages ∧ table ≠ sysSchema) ∨
-      ∃ st, Spec.findTable sdb table = some st ∧ Spec.rowOf st cols r = none) :
+      ∃ st, Spec.findTable sdb table = some st ∧
+        (Spec.rowOf st cols r = none ∨ Spec.namesOK st (cols.map Spec.nameStr) = false)) :
     Spec.specInsert sdb table cols (r :: rest) = none ∧
     ∃ e db', Engine.evalInsert db table cols (r :: rest) = .err (.store e) db' ∧
       (e = .tableNotExist ∨ RowRefusal e) ∧ db'.wal = db.wal ∧ AbsV db'.store pt sch tbls sdb :=
@@ -125,7 +145,8 @@ theorem C14_insert_refused_plain_model (db : Engine.DB) (pt sch : Levels) (tbls 
 /-- **C14.insert_kth_row_plain_model** (the known finding, stated against the plain model): when the
 k-th row (k >= 2) is the refused one, the plain model refuses the statement and so does the engine,
 nothing is logged - but the store abstracts to the plain database *with the good rows before it
-appended*, not to the database before the statement. -/
+appended*, not to the database before the statement.  (`hnames`: the column list is one the plain model
+accepts; a bad column list is refused at the first row, `C14_insert_refused_plain_model`.) -/
 theorem C14_insert_kth_row_plain_model (db : Engine.DB) (pt sch : Levels) (tbls : List (Bytes × Levels))
     (sdb : Spec.SDB) (h : Abs db.store pt sch tbls sdb)
     (table : Bytes) (t : Levels) (ht : (table, t) ∈ tbls)
@@ -134,6 +155,7 @@ theorem C14_insert_kth_row_plain_model (db : Engine.DB) (pt sch : Levels) (tbls 
     (goodRows : List (List Val)) (hvalid : ∀ r ∈ good, ∀ v ∈ r, ValidVal v)
     (hgood : good.mapM (Spec.rowOf (absTable table schema t) cols) = some goodRows)
     (hbad : Spec.rowOf (absTable table schema t) cols bad = none)
+    (hnames : Spec.namesOK (absTable table schema t) (cols.map Spec.nameStr) = true)
     (hrun : InsRunOK schema (cols.map Engine.bytesToName) t db.store.hdr.lastKey db.store.hdr.nextLSN
       db.store.hdr.nextFree good) :
     Spec.specInsert sdb table cols (good ++ bad :: rest) = none ∧
@@ -141,7 +163,7 @@ theorem C14_insert_kth_row_plain_model (db : Engine.DB) (pt sch : Levels) (tbls 
       RowRefusal e ∧ db'.wal = db.wal ∧
       Abs db'.store ptF sch (setTable tbls table t')
         (sdb.map (updRows table (fun r => r ++ idRows db.store.hdr.lastKey goodRows))) :=
-  evalInsert_kth_refused_spec db pt sch tbls sdb h table t ht schema hsch cols good bad rest goodRows hvalid hgood hbad hrun
+  evalInsert_kth_refused_spec db pt sch tbls sdb h table t ht schema hsch cols good bad rest goodRows hvalid hgood hbad hnames hrun
 
 end Mkdb.Store
 
@@ -150,10 +172,11 @@ open Mkdb.Tree Mkdb.Page Mkdb.Tuple Mkdb.Generated
 
 /-- **C14.refused_statement_plain_model** (one theorem over parsed statements, against the plain
 in-memory model): `StmtRefusal` lists the refusals that happen before anything is changed - CREATE
-TABLE of an existing or catalog name or with a column length beyond 32 bits; INSERT into an unknown
-table or whose first row is refused (column count, unknown column, type, range, size); UPDATE with a
-column source, of an unknown table, with a WHERE that cannot be evaluated, or whose first selected row
-cannot be rewritten; DELETE of an unknown table or with a WHERE that cannot be evaluated.  The plain
+TABLE of an existing or catalog name, with a column length beyond 32 bits or with one column name
+twice; INSERT into an unknown table, whose column list names an unknown column or one column twice, or
+whose first row is refused (column count, type, range, size); UPDATE with a column source, of an
+unknown table, with an unknown or repeated SET column (whatever its WHERE selects), with a WHERE that
+cannot be evaluated, or whose first selected row cannot be rewritten; DELETE of an unknown table or with a WHERE that cannot be evaluated.  The plain
 model refuses, the engine model returns an error, the log is untouched and the relation `Rel` holds
 with the SAME catalog trees and the SAME plain database: every table and the catalog contain what
 they contained, and since recovery reads only the file and the log, so they do after a restart. -/
@@ -176,7 +199,9 @@ theorem C14_delete_refused_plain_model (db : Engine.DB) (pt sch : Levels) (tbls 
       db'.wal = db.wal ∧ Same db.store db'.store ∧ AbsV db'.store pt sch tbls sdb :=
   evalDelete_refused_specV db pt sch tbls sdb h table w hname hbad
 
-/-- **C14.update_refused_plain_model**: likewise for UPDATE refused before its first row. -/
+/-- **C14.update_refused_plain_model**: likewise for UPDATE refused before its first row (`UpdRefusal`:
+column source, unknown table, a SET column the table does not have or one set twice - also when no row
+is selected -, WHERE not evaluable, first selected row not rewritable). -/
 theorem C14_update_refused_plain_model (db : Engine.DB) (pt sch : Levels) (tbls : List (Bytes × Levels))
     (sdb : Spec.SDB) (h : AbsV db.store pt sch tbls sdb) (table : Bytes)
     (sets : List (Bytes × Sql.VExpr)) (w : Option Sql.Cond) (hbad : UpdRefusal sdb table sets w) :
@@ -189,7 +214,9 @@ theorem C14_update_refused_plain_model (db : Engine.DB) (pt sch : Levels) (tbls 
 selected row (k >= 2) is the one that cannot be rewritten, the plain model refuses the statement, the
 engine model returns a row error and logs nothing - but the store abstracts to the plain database
 with the first k-1 selected rows REWRITTEN, one of the states `Spec.prefixStates` lists
-(`kth_state_in_prefixStates`), not to the database before the statement. -/
+(`kth_state_in_prefixStates`), not to the database before the statement.  (`hset`: the SET columns pass
+the statement's check; an unknown or repeated SET column is refused before any row is rewritten,
+`C14_update_refused_plain_model`.) -/
 theorem C14_update_kth_row_plain_model (db : Engine.DB) (pt sch : Levels) (tbls : List (Bytes × Levels))
     (sdb : Spec.SDB) (h : Abs db.store pt sch tbls sdb) (table : Bytes)
     (sets : List (Bytes × Sql.VExpr)) (w : Option Sql.Cond)
@@ -197,6 +224,7 @@ theorem C14_update_kth_row_plain_model (db : Engine.DB) (pt sch : Levels) (tbls 
     (hvalid : ∀ p ∈ sets, ∀ l, p.2 = .lit l → ValidVal (Engine.litToVal l))
     (st : Spec.STable) (sel : List Bool) (pre : List (List Val)) (bad : List Val) (post : List (List Val))
     (hfind : Spec.findTable sdb table = some st) (hsel : Spec.selects st w = some sel)
+    (hset : Engine.checkSetColumns (Spec.fieldsOfTable st) [] (sets.map (·.1)) = none)
     (hsplit : selVals st sel = pre ++ bad :: post)
     (hpre : ∀ v ∈ pre, specAssign st.cols sets v ≠ none) (hbad : specAssign st.cols sets bad = none) :
     Spec.specUpdate sdb table sets w = none ∧
@@ -204,6 +232,6 @@ theorem C14_update_kth_row_plain_model (db : Engine.DB) (pt sch : Levels) (tbls 
       (e = .typeMismatch ∨ e = .intOutOfRange ∨ e = .rowTooLarge) ∧ db'.wal = db.wal ∧
       Abs db'.store pt sch (setTable tbls table t')
         (sdb.map (updRows table fun rs => rewriteFirst st.cols sets pre.length (rs.zip sel))) :=
-  evalUpdate_kth_refused_spec db pt sch tbls sdb h table sets w hnocol hvalid st sel pre bad post hfind hsel hsplit hpre hbad
+  evalUpdate_kth_refused_spec db pt sch tbls sdb h table sets w hnocol hvalid st sel pre bad post hfind hsel hset hsplit hpre hbad
 
 end Mkdb.Store
